@@ -132,7 +132,7 @@ func (h *harness) deliver(n *sim.Node, cl *sim.Call) string {
 	case <-cl.Finished: // the usual case: the handler returned
 	case <-time.After(20 * time.Millisecond):
 		// parked (InstallSnapshot waiting for the apply loop, or frozen at a storage write) - or slow
-		if err := sim.WaitQuiescent(5 * time.Second); err != nil {
+		if err := sim.WaitQuiescent(30 * time.Second); err != nil {
 			panic(err)
 		}
 	}
@@ -392,7 +392,7 @@ func (h *harness) rvCases(r *rand.Rand, perLog int, crashCases int) {
 			h.viol = append(h.viol, fmt.Sprintf("C14 Start failed after a crash at storage write %d of RequestVote: %v", budget+1, err))
 			continue
 		}
-		if err := sim.WaitQuiescent(5 * time.Second); err != nil {
+		if err := sim.WaitQuiescent(30 * time.Second); err != nil {
 			panic(err)
 		}
 		n2 := h.c.Nodes["0"]
